@@ -140,6 +140,20 @@ func runC16(c *Ctx) {
 		} else {
 			val := stripConv(wv.Common().Args[2])
 			al, isAl := val.(*ssa.Alloc)
+			if !isAl {
+				// built by a helper of the builder: every (non-nil) origin is an allocation made in the builder's cone
+				for _, o := range c.origins(val) {
+					if len(o.Fields) == 0 && isNilConst(o.Root) {
+						continue
+					}
+					a2, ok := o.Root.(*ssa.Alloc)
+					if !ok || len(o.Fields) != 0 {
+						al, isAl = nil, false
+						break
+					}
+					al, isAl = a2, true
+				}
+			}
 			if !isAl || !inB[al.Parent()] {
 				okAll = false
 				c.bad("R16.1", construct, c.ipos(wv), "the proxy placed into the context is not allocated by this invocation of the builder: connections share one proxy")
